@@ -17,7 +17,13 @@ _NOTE = ("Trusted: Coq 8.16.1 kernel; extraction (ExtrOcamlBasic) + OCaml 4.13.1
          "Runner/RunLts.v: deadline = clock reading after the hook's return + send timeout; the fake transmitter logs "
          "the deadline of the context it is handed against system-clock readings at the hook's return and at the "
          "call, with a runner clock that is skewed from the system clock) and Run's own control flow (LTS of Run: "
-         "the connection obtained from Connect is closed on every return path, whenever the cancellation comes).")
+         "the connection obtained from Connect is closed on every return path, whenever the cancellation comes). "
+         "The instrumented node lock comes in two flavours, a plain sync.Locker and (every third schedule) one that also "
+         "offers RLocker(): an acquisition through the shared side covers reads only - a write of message state "
+         "(Set{Receive,Transmit}Time, UnmarshalFrame) under it is logged with ownership bit 0, i.e. an access without the "
+         "node lock (I2); the LTS is unchanged by this, its lock discipline is exclusive ownership. Failing TransmitFrame "
+         "calls of the fake transmitter return real error kinds (*net.OpError around ENOBUFS / EAGAIN / EINTR / ENETDOWN, an "
+         "expired write deadline, context errors, a plain error) in turn.")
 
 PROPERTIES = {
     "C13": {
